@@ -80,7 +80,7 @@ type c04Case struct {
 	NonTerm bool     `json:"nonterm,omitempty"` // by the language definition the program cannot complete (documentation; not judged)
 	NoVMRaw bool     `json:"no_vm_raw,omitempty"`
 	SkipVM  bool     `json:"skip_vm,omitempty"` // compiled mode not run for this case (quick tier, see c04LoopLayer)
-	Group   string   `json:"group,omitempty"` // root-cause tag used in hang/memory keys
+	Group   string   `json:"group,omitempty"`   // root-cause tag used in hang/memory keys
 	Lambda  string   `json:"lambda,omitempty"`
 	Async   bool     `json:"async,omitempty"`
 }
@@ -1522,7 +1522,8 @@ func c04HangFinding(c *c04Case, kind string, step int, detail string) c04Finding
 	eng := c04StepEngine(step)
 	g := c.Group
 	if g == "" {
-		g = c.Layer
+		// no root-cause tag: the program itself, literals abstracted to their shapes
+		g = c.Layer + "/" + c04AbstractProgram(c)
 	}
 	what := "the evaluation does not return"
 	switch kind {
@@ -1540,8 +1541,50 @@ func c04HangFinding(c *c04Case, kind string, step int, detail string) c04Finding
 		lvl = "http"
 	}
 	_ = lvl
+	if os.Getenv("C04_KEY_ID") != "" { // exploration aid: one key per case and step
+		g += "/" + c.ID + "/" + c04StepNames[step] + "/" + kind
+	}
 	return c04Finding{Kind: "runaway", Key: fmt.Sprintf("runaway/%s/%s", eng, g), Step: step, Case: *c,
 		Desc: fmt.Sprintf("%s: %s (%s) | program: %s | request: %s", c04StepNames[step], what, detail, c.show(), c.Req.show())}
+}
+
+// the program text with every literal replaced by the name of its shape (`1 == 1.5` -> `INT == FLOAT`)
+func c04AbstractProgram(c *c04Case) string {
+	if c.SrcGen != "" {
+		return "generated:" + c.SrcGen
+	}
+	shapes := append([]c04Shape{}, c04Shapes...)
+	sort.SliceStable(shapes, func(i, j int) bool { return len(shapes[i].Lit) > len(shapes[j].Lit) })
+	text := strings.Join(append(append([]string{}, c.Inj...), c.Body...), "; ")
+	var b strings.Builder
+outer:
+	for i := 0; i < len(text); {
+		prevIdent := i > 0 && c04IdentByte(text[i-1])
+		for _, sh := range shapes {
+			if !strings.HasPrefix(text[i:], sh.Lit) {
+				continue
+			}
+			end := i + len(sh.Lit)
+			first := sh.Lit[0]
+			if (first >= '0' && first <= '9') || first == '-' || (first >= 'a' && first <= 'z') {
+				// a number or keyword must not be part of a longer word or number
+				if prevIdent || (end < len(text) && c04IdentByte(text[end])) || (first == '-' && b.Len() > 0 && !strings.HasSuffix(strings.TrimRight(b.String(), " "), "(") && !strings.HasSuffix(strings.TrimRight(b.String(), " "), ",")) {
+					continue
+				}
+			}
+			b.WriteString(sh.Name)
+			i = end
+			continue outer
+		}
+		b.WriteByte(text[i])
+		i++
+	}
+	// " :: " separates key and description in known_findings.txt
+	out := strings.ReplaceAll(strings.Join(strings.Fields(b.String()), " "), "::", "status")
+	if len(out) > 160 {
+		out = out[:160]
+	}
+	return out
 }
 
 func TestVerif_C04(t *testing.T) {
@@ -1559,7 +1602,9 @@ func TestVerif_C04(t *testing.T) {
 	if scratch == "" {
 		scratch = os.TempDir()
 	}
-	lim := c04Limits{cpu: 10 * time.Second, blocked: 30 * time.Second, wallCap: 150 * time.Second, rss: 1 << 30}
+	// the slowest terminating evaluations of the corpus (10^6 loop iterations in the interpreter, 10^8 VM steps)
+	// take 1-4 s of CPU depending on the machine
+	lim := c04Limits{cpu: 15 * time.Second, blocked: 30 * time.Second, wallCap: 150 * time.Second, rss: 1 << 30}
 	if p.Thorough {
 		lim.cpu = 20 * time.Second
 	}
